@@ -56,7 +56,7 @@ def l1_framing(ctx, n, kind, entry):
     ctx.reached()
 
 
-def l2_link(ctx, tx_kind, rx_kind, pipe, pl, count):
+def l2_link(ctx, tx_kind, rx_kind, pipe, pl, count, getters=None):
     dynamic = pl is None
     clock = fresh_env(ctx)
     med = Medium()
@@ -83,6 +83,9 @@ def l2_link(ctx, tx_kind, rx_kind, pipe, pl, count):
     a.listen = False
     from vsym.core import SBytes
     a.open_tx_pipe(SBytes(target) if ctx.symbolic else bytes(target))
+    if getters:  # both applications read every read-only attribute first (ascending / descending pipe order)
+        touch_rf24_getters(a, getters == "down")
+        touch_rf24_getters(b, getters == "down")
     lens = [(3, 32, 1)[i] for i in range(count)]
     bufs = [ctx.bytes("msg%d" % i, ln) for i, ln in enumerate(lens)]
     res = a.send(list(bufs)) if count > 1 else [a.send(bufs[0])]
@@ -342,6 +345,8 @@ def jobs(tier):
         out.append(Job("L2-link-interop", l2_link, dict(tx_kind=tk, rx_kind=rk, pipe=1, pl=None, count=3), cost=10))
         out.append(Job("L2-link-interop", l2_link, dict(tx_kind=tk, rx_kind=rk, pipe=0, pl=32, count=3), cost=10))
         out.append(Job("L3-ack-payload-interop", l3_ack_payload_interop, dict(tx_kind=tk, rx_kind=rk), cost=4))
+        out.append(Job("L2-link-interop-after-reading-every-getter", l2_link,
+                       dict(tx_kind=tk, rx_kind=rk, pipe=(1, 4, 0)[len(out) % 3], pl=(None, 5, None)[len(out) % 3], count=2, getters=("up", "down")[len(out) % 2]), cost=8))
     # L3: the C02 harness with the lite driver (auto-ack cannot be switched off there)
     base, ackm = (True, False, 0, False), (True, False, 2, False)
     plan = [(("send",), 1, 15, [base, (True, False, 0, True), (True, True, 0, False), ackm, (True, False, 1, True)]),
